@@ -43,7 +43,11 @@ def main():
     r = sh(["git", "-C", "/repo", "worktree", "add", "--detach", wt, "HEAD"])
     try:
         meta["base_commit"] = sh(["git", "-C", "/repo", "rev-parse", "--short", "HEAD"]).stdout.strip()
-        shutil.copy(os.path.join(dst, "demo.py"), os.path.join(wt, "seed_demo.py"))
+        demo_src = open(os.path.join(dst, "demo.py"), encoding="utf8").read()
+        agent_dir = "/tmp/seed-" + a.property
+        if agent_dir in demo_src:
+            meta["demo_note"] = "the demo names its original directory %s; that path is replaced by the scratch worktree when it is run here" % agent_dir
+        open(os.path.join(wt, "seed_demo.py"), "w", encoding="utf8").write(demo_src.replace(agent_dir, wt))
         sh([os.path.join(VERIF, "tools/rebuild_repo_ext.sh"), wt])
         d0 = sh(["/venv/bin/python", "seed_demo.py"], cwd=wt)
         meta["demo_without_change_rc"] = d0.returncode
